@@ -1866,4 +1866,51 @@ theorem walk_true_res (ts : Node) (segs : List Text) (ln : Bool) :
 theorem take_dropLast {α} (l : List α) (j : Nat) (h : j < l.length) : l.dropLast.take j = l.take j := by
   rw [List.dropLast_eq_take, List.take_take]; congr 1; omega
 
+theorem splitGo_simple (w : Text) : ∀ (segs : List Text) (buf : Text) (esc iq ie : Bool),
+    (∀ c ∈ w, c ≠ '.' ∧ c ≠ '"' ∧ c ≠ '$') →
+    splitGo ⟨segs, buf, false, esc, 0, iq, ie⟩ w = .ok ⟨segs, buf ++ w, false, esc, 0, iq, ie⟩ := by
+  induction w with
+  | nil => intro segs buf esc iq ie _; rw [splitGo]; simp
+  | cons c cs ih =>
+    intro segs buf esc iq ie hw
+    obtain ⟨hc1, hc2, hc3⟩ := hw c (by simp)
+    rw [splitGo]
+    simp only [Nat.lt_irrefl, if_false, Bool.false_eq_true, hc2, hc3, hc1,
+      Bool.false_and, decide_false]
+    rw [ih _ _ _ _ _ (fun d hd => hw d (by simp [hd]))]
+    simp [List.append_assoc]
+
+/-- a key without `.`, `"` and `$` is never read as a dotted path -/
+theorem plainKey_simple (k : Text) (h : ∀ c ∈ k, c ≠ '.' ∧ c ≠ '"' ∧ c ≠ '$') : plainKey k = true := by
+  unfold plainKey splitAttrpath
+  have : ({} : SplitSt) = ⟨[], [], false, false, 0, false, false⟩ := rfl
+  rw [this, splitGo_simple k _ _ _ _ _ h]
+  simp only [Nat.lt_irrefl, if_false, Bool.false_eq_true]
+  unfold splitFlush
+  simp only
+  by_cases hs : strip k = []
+  · simp [hs]
+  · simp [hs]
+
+theorem identRest_ne_dollar (c : Char) (h : identRest c = true) : c ≠ '$' := by
+  intro hc; subst hc; revert h; decide
+theorem identStart_ne_dollar (c : Char) (h : identStart c = true) : c ≠ '$' := by
+  intro hc; subst hc; revert h; decide
+theorem identStart_ne' (c : Char) (h : identStart c = true) : c ≠ '.' ∧ c ≠ '"' := by
+  constructor <;> (intro hc; subst hc; revert h; decide)
+theorem identRest_ne' (c : Char) (h : identRest c = true) : c ≠ '.' ∧ c ≠ '"' := by
+  constructor <;> (intro hc; subst hc; revert h; decide)
+
+/-- every bare identifier segment is a plain key -/
+theorem plainKey_ident (k : Text) (h : isIdent k = true) : plainKey k = true := by
+  apply plainKey_simple
+  cases k with
+  | nil => simp [isIdent] at h
+  | cons d ds =>
+    simp only [isIdent, Bool.and_eq_true, List.all_eq_true] at h
+    intro c hc
+    rcases List.mem_cons.mp hc with rfl | hm
+    · exact ⟨(identStart_ne' _ h.1).1, (identStart_ne' _ h.1).2, identStart_ne_dollar _ h.1⟩
+    · exact ⟨(identRest_ne' _ (h.2 c hm)).1, (identRest_ne' _ (h.2 c hm)).2, identRest_ne_dollar _ (h.2 c hm)⟩
+
 end Nima
